@@ -14,7 +14,7 @@ EXPLANATION = (
     'size limit) cells under the size model 1 + 40 per pair, emits all heads when unlimited (authors sharing a timestamp '
     'are all kept) and otherwise the longest newest-first prefix that fits; (R4) document removal erases the heads (shared '
     'with C16.R1); (R5) the heads rebuilt by migration 001 and maintained by entry_put, both evaluated over an abstract '
-    'records table, are the greatest (timestamp, key) per (namespace, author) with ties resolved alike (shared with C18.R2). (R6) the store actor forwards HasNewsForUs one to one (the store-actor handler evaluated with the fields of the request as named tokens and gates / store / replica calls answered by an oracle, each step also failing in turn: the own fields of the request reach the core function in order on the addressed document, nothing is carried out after a failed step, the reply is the result of that function; the SyncHandle method evaluated: one request of its own kind, addressed to its namespace argument, each field one of its own parameters, the reply of the actor returned). (R7) the live actor handler of gossiped head reports evaluated on (syncing, decodable, verdict of has_news_for_us): one request to the sender of the report, for the document it names, exactly when the store flags the decoded heads as news. NOT decided: exact bytes kept under a limit.'
+    'records table, are the greatest (timestamp, key) per (namespace, author) with ties resolved alike (shared with C18.R2). (R6) the store actor forwards HasNewsForUs one to one (the store-actor handler evaluated with the fields of the request as named tokens and gates / store / replica calls answered by an oracle, each step also failing in turn: the own fields of the request reach the core function in order on the addressed document, nothing is carried out after a failed step, the reply is the result of that function; the SyncHandle method evaluated: one request of its own kind, addressed to its namespace argument, each field one of its own parameters, the reply of the actor returned). (R7) the live actor handler of gossiped head reports evaluated on (syncing, decodable, verdict of has_news_for_us): one request to the sender of the report, for the document it names, exactly when the store flags the decoded heads as news. (R8) the scan behind the head queries (LatestIterator::new) evaluated on concrete document ids and decided on sample rows: exactly the head rows of the document asked about. NOT decided: exact bytes kept under a limit.'
 )
 ASSUMPTIONS = ["redb tables are identified by their key/value types", "postcard size computation trusted"]
 
@@ -366,6 +366,61 @@ def r7(ctx):
     ctx.floor("C13.R7", 5)
 
 
+def r8(ctx):
+    """whose heads are reported: the scan behind get_latest_for_each_author / has_news_for_us, evaluated on a concrete document id
+    and decided on sample rows of the shared heads table - every (this document, author) row lies inside the scanned range, no
+    row of a neighbouring document does (a head of another document would hide news, or invent an author)"""
+    import re as _re
+    from . import feval as E, tables as T, keyrange
+    f = ctx.facts
+    types = T.table_types(f)
+    paths = [p_ for p_ in f.bodies if _re.fullmatch(r"store::fs::LatestIterator(::<.*>)?::new", p_)]
+    if len(paths) != 1:
+        raise mir.AnchorMissing("LatestIterator::new not found (%s)" % paths)
+    b = f.body(paths[0])
+    ctx.touch(b)
+    authors = [bytes([0]) * 32, bytes([0]) * 31 + b"\x01", bytes([0x7f]) * 32, bytes([255]) * 31 + b"\xfe", bytes([255]) * 32]
+    for ns_byte in (7, 0, 255):
+        log = []
+
+        def oracle(kind, name, payload, site, ns_byte=ns_byte):
+            if kind != "call":
+                return None
+            t, a, it = payload
+            names = [it.tokname(x).strip("&*") for x in a]
+            ct = T.call_table(t, types)
+            if ct and ct[1] in ("range", "iter"):
+                log.append((ct[0], E.describe(it.resolve(a[1]), f) if len(a) > 1 else "RangeFull"))
+                return E.Ok(E.Tok("range"))
+            if name in ("as_bytes", "to_bytes") and names and names[0] == "ns":
+                return E.Tok("id:" + (bytes([ns_byte]) * 32).hex())
+            return None
+        try:
+            ret, hp, ev = E.run(f, b.path, [E.href("table"), E.Tok("ns")], {"table": E.Tok("heads-table")}, oracle,
+                                inline=tuple(p_ for p_ in f.bodies if p_.startswith("store::fs::bounds::")))
+            got = E.describe(ret, f)
+        except E.Unsupported as e:
+            got = "UNSUPPORTED-FORM: %s" % e
+        ns = bytes([ns_byte]) * 32
+        below = (bytes([ns_byte]) * 31 + bytes([ns_byte - 1])) if ns_byte > 0 else None
+        above = (bytes([ns_byte]) * 31 + bytes([ns_byte + 1])) if ns_byte < 255 else None
+        ok = got.startswith("Ok(") and len(log) == 1 and log[0][0] == "latest_per_author"
+        det = "returns %s, scans %s" % (got, log)
+        if ok:
+            try:
+                rng = keyrange.bounds(log[0][1])
+                missing = [(ns, a) for a in authors if not keyrange.inside((ns, a), rng)]
+                foreign = [(n2, a) for n2 in (below, above) if n2 is not None for a in authors if keyrange.inside((n2, a), rng)]
+                ok = not missing and not foreign
+                det += "; head rows of this document outside the scan: %s; head rows of neighbouring documents inside: %s" % (
+                    [tuple(x.hex()[:8] for x in m) for m in missing[:3]], [tuple(x.hex()[-8:] for x in m) for m in foreign[:3]])
+            except ValueError as e:
+                ok = False
+                det += "; UNSUPPORTED-FORM: cannot read the bounds (%s)" % e
+        ctx.check(ok, "C13.R8", b.path, "scan-is-exactly-this-document's-heads[ns=%02x..]" % ns_byte, det, b.sp)
+    ctx.floor("C13.R8", 3)
+
+
 def run(ctx):
     ctx.run_rule("C13.R1", r1)
     ctx.run_rule("C13.R2", r2)
@@ -374,3 +429,4 @@ def run(ctx):
     ctx.run_rule("C13.R5", r5)
     ctx.run_rule("C13.R6", r6)
     ctx.run_rule("C13.R7", r7)
+    ctx.run_rule("C13.R8", r8)
